@@ -317,7 +317,11 @@ pub fn cmd_sweep_c07(args: &[String]) {
         for i in 0..4000u64 {
             let key: [u8; 32] = if i % 50 == 0 { [0xffu8; 32] } else if i % 50 == 1 { [0u8; 32] } else { rng.arr() };
             let input: [u8; 16] = if i % 40 == 0 { [0xffu8; 16] } else { rng.arr() };
-            let c: Option<[u8; 16]> = if i % 3 == 0 { Some(rng.arr()) } else { None };
+            // custom constants: random, all-zero (NOT the same as absent), all-0xff, one word zero, sigma passed explicitly
+            let c: Option<[u8; 16]> = match i % 30 {
+                0 => Some([0u8; 16]), 3 => Some([0xffu8; 16]), 6 => { let mut x: [u8; 16] = rng.arr(); for b in x[((i / 30) % 4 * 4) as usize..][..4].iter_mut() { *b = 0; } Some(x) }
+                9 => Some(*b"expand 32-byte k"), 12 => Some(*b"expand 16-byte k"),
+                k if k % 3 == 0 => Some(rng.arr()), _ => None };
             let (im, s) = hsalsa(&key, &input, c); compare(&mut rep, "hsalsa20", im, &[("libsodium", s.as_ref())], json!({"i": i, "const": c.is_some()}));
             let (im, s) = hchacha(&key, &input, c); compare(&mut rep, "hchacha20", im, &[("libsodium", s.as_ref())], json!({"i": i, "const": c.is_some()}));
         }
@@ -473,9 +477,12 @@ pub fn cmd_sweep_c05(args: &[String]) {
         }
     }
     // uniformly random (scalar, encoding) pairs: ~94% are off the prime-order subgroup
+    let (mut pn, mut pp): ([u8; 32], [u8; 32]) = (rng.arr(), rng.arr());
     for i in 0..nrandom {
-        let n: [u8; 32] = rng.arr();
-        let p: [u8; 32] = rng.arr();
+        // now and then one operand is the previous call's (whatever is kept between calls must not depend on half the input)
+        let n: [u8; 32] = if i % 10 == 3 { pn } else { rng.arr() };
+        let p: [u8; 32] = if i % 10 == 7 { pp } else { rng.arr() };
+        pn = n; pp = p;
         let (im, sod, _) = x25519(&n, &p);
         compare(&mut rep, "x25519 random point", im, &[("libsodium", sod.as_ref())], json!({"i": i, "scalar": hex(&n), "point": hex(&p), "seed": seed}));
         if i % 16 == 0 {
